@@ -50,10 +50,21 @@ structure Cfg where
   /-- the interval is updated before numpy has checked the operand's shape; an operand whose step
   cancels the interval is accepted -/
   earlyUpdate : Bool
+  /-- `+=`/`-=` read the first element of the operand AFTER the in-place operation: wrong when the
+  operand is the axis itself or a view of it (`t += t`) -/
+  aliasLateRead : Bool
+  /-- a 1-d operand of one element dies in `dv[0]` (IndexError) instead of acting as a shift -/
+  len1Refused : Bool
+  /-- `index_at` tests the range as `t0 ≤ t < t0 + duration` only (refuses everything on an axis
+  with a negative interval, e.g. a reversed slice) -/
+  lookupPositiveOnly : Bool
   deriving Repr, DecidableEq
 
-def fixed : Cfg := ⟨false, false, false, false, false, false, false⟩
-def current : Cfg := ⟨true, true, true, true, true, true, true⟩
+def fixed : Cfg := ⟨false, false, false, false, false, false, false, false, false, false⟩
+/-- the original snapshot -/
+def current : Cfg := ⟨true, true, true, true, true, true, true, false, true, true⟩
+/-- /repo after the first eight repairs (before C17-09…11) -/
+def head8 : Cfg := ⟨false, false, false, false, false, false, false, true, true, true⟩
 
 /-! ### object store -/
 abbrev ObjId := Nat
@@ -97,7 +108,13 @@ inductive Scalar where
 inductive Ramp where
   | ints (xs : List Int)
   | time (ps : List Int)
+  /-- the axis itself, or a view of all of it (`t += t`, `t -= t[:]`): shares the sample buffer -/
+  | self
   deriving Repr, DecidableEq
+
+def Ramp.aliased : Ramp → Bool
+  | .self => true
+  | _ => false
 
 inductive Op where
   | addS (v : Scalar) | subS (v : Scalar)
@@ -115,9 +132,10 @@ def convScalar (u : TimeUnit) : Scalar → Int
   | .int k => k * factorOf u
   | .time ps => ps
 
-def convRamp (u : TimeUnit) : Ramp → List Int
+def convRamp (u : TimeUnit) (self : List Int) : Ramp → List Int
   | .ints xs => xs.map (· * factorOf u)
   | .time ps => ps
+  | .self => self
 
 /-- `n` instants from `t0` every `dt` -/
 def affine (t0 dt : Int) (n : Nat) : List Int := (List.range n).map fun (i : Nat) => t0 + (i : Int) * dt
@@ -222,6 +240,26 @@ def shiftOp (cfg : Cfg) (s : State) (sgn : Int) (vals : Option (List Int)) (v0 d
       ({ s with store := store', cur := ax' }, none)
     else (s, some .valueError)
 
+/-- a 1-d operand of two or more elements: uniformity check, then the shift -/
+def rampOp (cfg : Cfg) (s : State) (sgn : Int) (aliased : Bool) (vals : List Int) : State × Option Err :=
+  match rampStep vals with
+  | .error e => (s, some e)
+  | .ok d =>
+    -- the unrepaired code reads `val.flat[0]` after the in-place operation; when `val` is the
+    -- axis itself that element has already changed
+    let v0 := if cfg.aliasLateRead && aliased then s.cur.samples.headD 0 + sgn * vals.headD 0
+              else vals.headD 0
+    shiftOp cfg s sgn (some vals) v0 d
+
+/-- any 1-d operand: empty → refused; one element → numpy broadcasts it, a shift; else `rampOp` -/
+def rampDispatch (cfg : Cfg) (s : State) (sgn : Int) (aliased : Bool) (vals : List Int) :
+    State × Option Err :=
+  if cfg.len1Refused then rampOp cfg s sgn aliased vals
+  else match vals with
+    | [] => (s, some .valueError)
+    | [v] => shiftOp cfg s sgn none v 0
+    | _ :: _ :: _ => rampOp cfg s sgn aliased vals
+
 def step (cfg : Cfg) (s : State) (op : Op) : State × Option Err :=
   let ax := s.cur
   let t0 := sget s.store ax.t0
@@ -229,16 +267,8 @@ def step (cfg : Cfg) (s : State) (op : Op) : State × Option Err :=
   match op with
   | .addS v => shiftOp cfg s 1 none (convScalar ax.unit v) 0
   | .subS v => shiftOp cfg s (-1) none (convScalar ax.unit v) 0
-  | .addR r =>
-    let vals := convRamp ax.unit r
-    match rampStep vals with
-    | .error e => (s, some e)
-    | .ok d => shiftOp cfg s 1 (some vals) (vals.headD 0) d
-  | .subR r =>
-    let vals := convRamp ax.unit r
-    match rampStep vals with
-    | .error e => (s, some e)
-    | .ok d => shiftOp cfg s (-1) (some vals) (vals.headD 0) d
+  | .addR r => rampDispatch cfg s 1 r.aliased (convRamp ax.unit ax.samples r)
+  | .subR r => rampDispatch cfg s (-1) r.aliased (convRamp ax.unit ax.samples r)
   | .mul k =>
     if cfg.mulStale then
       let samples := ax.samples.map (· * k)
@@ -285,11 +315,16 @@ def step (cfg : Cfg) (s : State) (op : Op) : State × Option Err :=
 
 def run (cfg : Cfg) (ops : List Op) (s : State) : State := ops.foldl (fun s op => (step cfg s op).1) s
 
-/-- `index_at(t)` for one instant (ps): range check against the attributes, floor division -/
-def indexAt (store : List Int) (ax : Axis) (t : Int) : Except Err Int :=
+/-- `index_at(t)` for one instant (ps): range check against the span the attributes describe
+(`[t0, t0+duration)` for a positive interval, `(t0+duration, t0]` for a negative one), floor division -/
+def indexAt (cfg : Cfg) (store : List Int) (ax : Axis) (t : Int) : Except Err Int :=
   let t0 := sget store ax.t0
-  if t < t0 ∨ t ≥ t0 + sget store ax.dur then .error .valueError
-  else .ok (Int.fdiv (t - t0) (sget store ax.dt))
+  let dt := sget store ax.dt
+  let dur := sget store ax.dur
+  let outside :=
+    if cfg.lookupPositiveOnly || decide (0 < dt) then decide (t < t0 ∨ t ≥ t0 + dur)
+    else decide (t > t0 ∨ t ≤ t0 + dur)
+  if outside then .error .valueError else .ok (Int.fdiv (t - t0) dt)
 
 /-! ### abstract specification -/
 structure Abs where
@@ -301,25 +336,25 @@ structure Abs where
 
 def absSamples (a : Abs) : List Int := affine a.t0 a.dt a.n
 
+/-- a 1-d operand on the abstract state -/
+def absRamp (a : Abs) (sgn : Int) (vals : List Int) : Abs :=
+  match vals with
+  | [] => a
+  | [v] => { a with t0 := a.t0 + sgn * v }
+  | _ :: _ :: _ =>
+    match rampStep vals with
+    | .ok d =>
+      if vals.length = a.n then
+        (if collapses a.dt (sgn * d) then a
+         else { a with t0 := a.t0 + sgn * vals.headD 0, dt := a.dt + sgn * d })
+      else a
+    | .error _ => a
+
 def absStep (a : Abs) : Op → Abs
   | .addS v => { a with t0 := a.t0 + convScalar a.unit v }
   | .subS v => { a with t0 := a.t0 - convScalar a.unit v }
-  | .addR r =>
-    let vals := convRamp a.unit r
-    match rampStep vals with
-    | .ok d =>
-      if vals.length = a.n then
-        (if collapses a.dt (1 * d) then a else { a with t0 := a.t0 + vals.headD 0, dt := a.dt + d })
-      else a
-    | .error _ => a
-  | .subR r =>
-    let vals := convRamp a.unit r
-    match rampStep vals with
-    | .ok d =>
-      if vals.length = a.n then
-        (if collapses a.dt (-1 * d) then a else { a with t0 := a.t0 - vals.headD 0, dt := a.dt - d })
-      else a
-    | .error _ => a
+  | .addR r => absRamp a 1 (convRamp a.unit (absSamples a) r)
+  | .subR r => absRamp a (-1) (convRamp a.unit (absSamples a) r)
   | .mul k => if k = 0 then a else { a with t0 := a.t0 * k, dt := a.dt * k }
   | .div k => if k = 0 ∨ a.t0 % k ≠ 0 ∨ a.dt % k ≠ 0 then a else { a with t0 := a.t0 / k, dt := a.dt / k }
   | .slice x y c =>
@@ -357,6 +392,8 @@ def parseOp? (s : String) : Option Op :=
   | ["ar", "t", xs] => (parseIntList? xs).map fun xs => .addR (.time xs)
   | ["sr", "i", xs] => (parseIntList? xs).map fun xs => .subR (.ints xs)
   | ["sr", "t", xs] => (parseIntList? xs).map fun xs => .subR (.time xs)
+  | ["ar", "self"] => some (.addR .self)
+  | ["sr", "self"] => some (.subR .self)
   | ["mu", k] => k.toInt?.map .mul
   | ["dv", k] => k.toInt?.map .div
   | ["sl", a, b, c] => do
@@ -369,15 +406,15 @@ def parseOp? (s : String) : Option Op :=
   | ["st"] => some .setitem
   | _ => none
 
-def showAxis (store : List Int) (ax : Axis) : String :=
-  let looks := ax.samples.map fun t => match indexAt store ax t with
+def showAxis (cfg : Cfg) (store : List Int) (ax : Axis) : String :=
+  let looks := ax.samples.map fun t => match indexAt cfg store ax t with
     | .ok i => toString i
     | .error _ => "e"
   s!"{ax.unit.name}:{sget store ax.t0}:{sget store ax.dt}:{sget store ax.dur}:{hex64 (F64.toBits ax.rate)}:{showIntList ax.samples}:{joinList looks}"
 
-def showState (s : State) (e : Option Err) (a : Abs) : String :=
+def showState (cfg : Cfg) (s : State) (e : Option Err) (a : Abs) : String :=
   let out := match e with | none => "ok" | some e => e.name
-  let axes := (s.cur :: s.kept).map (showAxis s.store)
+  let axes := (s.cur :: s.kept).map (showAxis cfg s.store)
   s!"{out}|{a.t0},{a.dt},{a.n},{a.unit.name}|" ++ "|".intercalate axes
 
 /-- the whole history: state after construction and after every operation -/
@@ -387,7 +424,7 @@ def trace (cfg : Cfg) (s : State) (a : Abs) (ops : List Op) : List String :=
   | op :: rest =>
     let (s', e) := step cfg s op
     let a' := absStep a op
-    showState s' e a' :: trace cfg s' a' rest
+    showState cfg s' e a' :: trace cfg s' a' rest
 
 def handle (args : List String) : String :=
   match args with
@@ -397,9 +434,10 @@ def handle (args : List String) : String :=
     | some u, some t0, some dt, some n, some ops =>
       let s := initState u t0 dt n
       let a : Abs := ⟨t0, dt, n, u⟩
-      let tr (cfg : Cfg) := "ok " ++ ";".intercalate (showState s none a :: trace cfg s a ops)
+      let tr (cfg : Cfg) := "ok " ++ ";".intercalate (showState cfg s none a :: trace cfg s a ops)
       if mode = "run" then tr fixed
       else if mode = "runcur" then tr current
+      else if mode = "runhead8" then tr head8
       else if mode = "both" then tr fixed ++ " ## " ++ tr current
       else "bad-op"
     | _, _, _, _, _ => "bad-op"
